@@ -1,4 +1,5 @@
 import BtcwVerif.Lemmas.KMap
+import BtcwVerif.Lemmas.RefRange
 /-!
 # C13 — transaction history shows each known transaction once, at its current status
 
@@ -7,8 +8,12 @@ ARBITRARY store: a hash is reported iff a record with that hash exists; it is re
 is in the unconfirmed bucket, otherwise under the block of its record; the spent flag of a listed credit is
 "spent by a mined transaction (stored flag) or by an unconfirmed one (unmined-inputs index)"; the position of the
 unconfirmed batch in a range query follows the −1 rule in both directions.
-NOT proved here: that the store's records are those of the `Ledger` after every consistent history (the refinement
-`step_repr`); `Ledger.details`/`Ledger.range` are compared with the model and with the real Go code at run time.
+Ledger level (second half of the file): after EVERY chain-consistent history of events (`ConsistentHistory`, block
+disconnections included) the history queries answer the sentences of C13 read on the specification `Ledger`:
+`C13_once`, `C13_credit`, `C13_debit`, `C13_range`, `C13_removed` (from the refinement Lemmas/Ref*.lean:
+`good_history`, `details_refines`, `range_refines`).  Credit / debit records are compared as sets without duplicates
+(the store lists them in bucket order, the ledger in index order); inside the unconfirmed batch of a range query the
+order is the store's (hash order), the ledger's is arrival order.
 -/
 namespace TxStore.C13
 open TxStore KMap
@@ -262,5 +267,198 @@ example : txDetails exStore 12 = .ok (some ⟨⟨12, [⟨9, 1⟩], [750]⟩, non
 example : txDetails exStore 13 = .ok none := by decide
 example : (rangeTransactions exStore (-1) 0).map (·.map (·.map (·.tx.hash))) = .ok [[12], [9]] := by decide
 example : (rangeTransactions exStore 0 (-1)).map (·.map (·.map (·.tx.hash))) = .ok [[9], [12]] := by decide
+
+/-! ## Ledger level -/
+open Ledger
+
+/-- **C13, each known transaction once, at its current status**: after every chain-consistent history, `TxDetails h`
+succeeds; it reports a record exactly when a known transaction has hash `h`; the record is that transaction, under its
+current block (height, hash, time) or as unconfirmed -/
+theorem C13_once (es : List Event) (hc : ConsistentHistory {} es) (h : Nat) :
+    ∃ s o, storeAfter Store.empty {} es = .ok s ∧ txDetails s h = .ok o ∧
+      (o.isSome = true ↔ isKnown (ledgerAfter {} es) h = true) ∧
+      (∀ d, o = some d → ∃ t ob, (t, ob) ∈ known (ledgerAfter {} es) ∧ t.hash = h ∧ d.tx = t ∧ d.block = ob) := by
+  obtain ⟨s, h1, hg, hn⟩ := good_reachable es hc
+  obtain ⟨o, ho, hag⟩ := details_refines hg hn h
+  refine ⟨s, o, h1, ho, ?_, ?_⟩
+  · obtain ⟨o', ho', hiff⟩ := txDetails_total hg h
+    rw [ho] at ho'; cases ho'
+    rw [hiff, isKnown_iff]
+  · intro d hd
+    subst hd
+    by_cases hk : ∃ p ∈ known (ledgerAfter {} es), p.1.hash = h
+    · obtain ⟨⟨t, ob⟩, hp, rfl⟩ := hk
+      rw [details_known hg.lwf hp] at hag
+      exact ⟨t, ob, hp, rfl, hag.tx, hag.block⟩
+    · rw [details_unknown (fun p hp e => hk ⟨p, hp, e⟩)] at hag
+      exact absurd hag (by simp [DetailsAgree])
+
+/-- **C13, credit records**: for a known transaction `t`, the record `TxDetails` reports lists a credit for output `i`
+exactly when `(t, i)` is credited — once —, with the value of that output, its change flag, and `spent` set exactly
+when some known transaction (confirmed or not) spends it -/
+theorem C13_credit (es : List Event) (hc : ConsistentHistory {} es) (t : Tx) (ob : Option BlockMeta)
+    (ht : (t, ob) ∈ known (ledgerAfter {} es)) :
+    ∃ s d, storeAfter Store.empty {} es = .ok s ∧ txDetails s t.hash = .ok (some d) ∧
+      (d.credits.map (·.index)).Nodup ∧
+      (∀ c, c ∈ d.credits ↔ ∃ chg, lookup (ledgerAfter {} es).credit ⟨t.hash, c.index⟩ = some chg ∧
+        t.outs[c.index]? = some c.amount ∧ c.change = chg ∧ c.spent = Ledger.spent (ledgerAfter {} es) ⟨t.hash, c.index⟩) := by
+  obtain ⟨s, h1, hg, hn⟩ := good_reachable es hc
+  obtain ⟨o, ho, hag⟩ := details_refines hg hn t.hash
+  rw [details_known hg.lwf ht] at hag
+  cases o with
+  | none => exact absurd hag (by simp [DetailsAgree])
+  | some d =>
+    refine ⟨s, d, h1, ho, hag.creditsNodup, ?_⟩
+    intro c
+    rw [hag.credits]
+    unfold detailsOf
+    simp only [List.mem_filterMap]
+    constructor
+    · rintro ⟨⟨i, v⟩, hiv, hcv⟩
+      have hv := (mem_withIdx0 _ _ _).mp hiv
+      simp only at hcv
+      cases hlk : lookup (ledgerAfter {} es).credit ⟨t.hash, i⟩ with
+      | none => rw [hlk] at hcv; cases hcv
+      | some chg =>
+        rw [hlk] at hcv
+        simp only [Option.some.injEq] at hcv
+        subst hcv
+        exact ⟨chg, hlk, hv, rfl, rfl⟩
+    · rintro ⟨chg, h2, h3, h4, h5⟩
+      refine ⟨(c.index, c.amount), (mem_withIdx0 _ _ _).mpr h3, ?_⟩
+      simp only [h2, Option.some.injEq]
+      obtain ⟨ci, ca, cs, cc⟩ := c
+      simp only at h4 h5
+      rw [h4, h5]
+
+/-- **C13, debit records**: the record lists a debit for input `j` exactly when the output that input spends is a
+credited output of a known transaction — once —, with that output's value -/
+theorem C13_debit (es : List Event) (hc : ConsistentHistory {} es) (t : Tx) (ob : Option BlockMeta)
+    (ht : (t, ob) ∈ known (ledgerAfter {} es)) :
+    ∃ s d, storeAfter Store.empty {} es = .ok s ∧ txDetails s t.hash = .ok (some d) ∧
+      (d.debits.map (·.index)).Nodup ∧
+      (∀ x, x ∈ d.debits ↔ ∃ inp, t.ins[x.index]? = some inp ∧ creditValue (ledgerAfter {} es) inp = some x.amount) := by
+  obtain ⟨s, h1, hg, hn⟩ := good_reachable es hc
+  obtain ⟨o, ho, hag⟩ := details_refines hg hn t.hash
+  rw [details_known hg.lwf ht] at hag
+  cases o with
+  | none => exact absurd hag (by simp [DetailsAgree])
+  | some d =>
+    refine ⟨s, d, h1, ho, hag.debitsNodup, ?_⟩
+    intro x
+    rw [hag.debits]
+    unfold detailsOf
+    simp only [List.mem_filterMap]
+    constructor
+    · rintro ⟨⟨j, inp⟩, hji, hx⟩
+      have hj := (mem_withIdx0 _ _ _).mp hji
+      simp only at hx
+      cases hcv : creditValue (ledgerAfter {} es) inp with
+      | none => rw [hcv] at hx; cases hx
+      | some v =>
+        rw [hcv] at hx
+        simp only [Option.some.injEq] at hx
+        subst hx
+        exact ⟨inp, hj, hcv⟩
+    · rintro ⟨inp, h2, h3⟩
+      refine ⟨(x.index, inp), (mem_withIdx0 _ _ _).mpr h2, ?_⟩
+      simp only [h3]
+
+/-- **C13, range queries**: `RangeTransactions begin end` succeeds and reports the ledger's batches in the ledger's
+order — the unconfirmed batch first when `begin = −1`, last when only `end = −1`; the blocks with height in the range,
+ascending or descending as asked, each batch holding exactly the transactions of that block in the order the wallet
+learned them (resp. the unconfirmed transactions), each record agreeing with the ledger's as in `C13_credit/_debit` -/
+theorem C13_range (es : List Event) (hc : ConsistentHistory {} es) (b e : Int) :
+    ∃ s bs, storeAfter Store.empty {} es = .ok s ∧ rangeTransactions s b e = .ok bs ∧
+      BatchesAgree bs (Ledger.range (ledgerAfter {} es) b e) := by
+  obtain ⟨s, h1, hg, hn⟩ := good_reachable es hc
+  obtain ⟨bs, h2, h3⟩ := range_refines hg hn b e
+  exact ⟨s, bs, h1, h2, h3⟩
+
+/-- a batch that agrees with the ledger's holds only known transactions -/
+theorem batch_known {L : Ledger} : ∀ {bs bs' : List (List Details)}, BatchesAgree bs bs' →
+    (∀ ds' ∈ bs', ∀ d' ∈ ds', ∃ ob, (d'.tx, ob) ∈ known L) →
+    ∀ ds ∈ bs, ∀ d ∈ ds, ∃ ob, (d.tx, ob) ∈ known L := by
+  intro bs bs' h
+  induction h with
+  | nil => intro _ ds hds; cases hds
+  | @cons ds ds' l m hb _ ih =>
+    intro hk ds0 hds0 d hd
+    rcases List.mem_cons.mp hds0 with rfl | hds0'
+    · obtain ⟨ds'', hperm, hpw⟩ := hb
+      -- d corresponds to some record of ds''
+      have : ∀ {a : List Details} {c : List Details}, Pointwise DetEquiv a c → ∀ x ∈ a, ∃ y ∈ c, x.tx = y.tx := by
+        intro a c hp
+        induction hp with
+        | nil => intro x hx; cases hx
+        | cons hr _ ih2 =>
+          intro x hx
+          rcases List.mem_cons.mp hx with rfl | hx'
+          · exact ⟨_, List.mem_cons_self, hr.tx⟩
+          · obtain ⟨y, hy, e⟩ := ih2 x hx'
+            exact ⟨y, List.mem_cons_of_mem _ hy, e⟩
+      obtain ⟨y, hy, e⟩ := this hpw d hd
+      obtain ⟨ob, hob⟩ := hk ds' List.mem_cons_self y (hperm.mem_iff.mp hy)
+      exact ⟨ob, by rw [e]; exact hob⟩
+    · exact ih (fun x hx => hk x (List.mem_cons_of_mem _ hx)) ds0 hds0' d hd
+
+/-- every record of `Ledger.range` is the record of a known transaction -/
+theorem range_known (L : Ledger) (b e : Int) :
+    ∀ ds' ∈ Ledger.range L b e, ∀ d' ∈ ds', ∃ ob, (d'.tx, ob) ∈ known L := by
+  intro ds' hds' d' hd'
+  rw [range_eq] at hds'
+  have hun : ∀ ds ∈ rangeUnL L, ∀ d ∈ ds, ∃ ob, (d.tx, ob) ∈ known L := by
+    intro ds hds d hd
+    unfold rangeUnL at hds
+    split at hds
+    · cases hds
+    · simp only [List.mem_singleton] at hds
+      subst hds
+      obtain ⟨t, ht, rfl⟩ := List.mem_map.mp hd
+      exact ⟨none, known_of_pool ht⟩
+  have hmid : ∀ ds ∈ rangeMidL L b e, ∀ d ∈ ds, ∃ ob, (d.tx, ob) ∈ known L := by
+    intro ds hds d hd
+    unfold rangeMidL at hds
+    by_cases hlt : (if b < 0 then maxInt32 else b) < (if e < 0 then maxInt32 else e)
+    · rw [if_pos hlt] at hds
+      obtain ⟨lb, hlb, rfl⟩ := List.mem_map.mp hds
+      obtain ⟨t, ht, rfl⟩ := List.mem_map.mp hd
+      exact ⟨some lb.bm, known_of_mined (mem_chainTxs.mpr ⟨lb, (List.mem_filter.mp hlb).1, rfl, ht⟩)⟩
+    · rw [if_neg hlt] at hds
+      obtain ⟨lb, hlb, rfl⟩ := List.mem_map.mp hds
+      obtain ⟨t, ht, rfl⟩ := List.mem_map.mp hd
+      exact ⟨some lb.bm, known_of_mined (mem_chainTxs.mpr ⟨lb, (List.mem_filter.mp (List.mem_reverse.mp hlb)).1, rfl, ht⟩)⟩
+  rcases List.mem_append.mp hds' with h | h
+  · rcases List.mem_append.mp h with h | h
+    · split at h
+      · exact hun _ h _ hd'
+      · cases h
+    · exact hmid _ h _ hd'
+  · split at h
+    · exact hun _ h _ hd'
+    · cases h
+
+/-- **C13, removed transactions disappear**: when, after a chain-consistent history, no known transaction has hash `h`
+— whether the transaction never arrived or an event removed it (abandoned, conflicted by a confirmation, depending on a
+disconnected coinbase) — `TxDetails h` answers "none" and no batch of any range query holds a record with that hash -/
+theorem C13_removed (es : List Event) (hc : ConsistentHistory {} es) (h : Nat)
+    (hgone : isKnown (ledgerAfter {} es) h = false) (b e : Int) :
+    ∃ s bs, storeAfter Store.empty {} es = .ok s ∧ txDetails s h = .ok none ∧
+      rangeTransactions s b e = .ok bs ∧ ∀ ds ∈ bs, ∀ d ∈ ds, d.tx.hash ≠ h := by
+  obtain ⟨s, h1, hg, hn⟩ := good_reachable es hc
+  obtain ⟨o, ho, hiff⟩ := txDetails_total hg h
+  obtain ⟨bs, h2, h3⟩ := range_refines hg hn b e
+  have hk := isKnown_false_iff.mp hgone
+  have : o = none := by
+    cases o with
+    | none => rfl
+    | some d =>
+      obtain ⟨p, hp, e'⟩ := hiff.mp rfl
+      exact absurd e' (hk p hp)
+  subst this
+  refine ⟨s, bs, h1, ho, h2, ?_⟩
+  intro ds hds d hd e'
+  obtain ⟨ob, hob⟩ := batch_known h3 (range_known _ b e) ds hds d hd
+  exact hk _ hob e'
 
 end TxStore.C13
